@@ -5,25 +5,25 @@ import SynthVerif.Gen.Consts
 -/
 open F32
 
-/-- `heapless::HistoryBuffer<f32, N>` -/
-structure Ring where
-  data : List F32      -- length = capacity
-  writeAt : Nat
-  filled : Bool
+/-- `heapless::HistoryBuffer<f32, N>` at the level the crate uses it: a bounded queue.  `write` appends and drops the
+oldest element once `cap` elements are held; `oldest_ordered()` yields the held elements oldest first; `len()` is
+their number.  (The circular storage of the real type is not modelled; the order in which `oldest_ordered` yields
+the samples matters for the f32 sum and is validated bit for bit by the correspondence check.) -/
+structure HistBuf where
+  cap : Nat
+  items : List F32      -- oldest first, length ≤ cap
 deriving Repr
 
-namespace Ring
-def new (cap : Nat) : Ring := { data := List.replicate cap zero, writeAt := 0, filled := false }
-def capacity (r : Ring) : Nat := r.data.length
-def write (r : Ring) (x : F32) : Ring :=
-  let d := r.data.set r.writeAt x
-  let w := r.writeAt + 1
-  if w == r.capacity then { data := d, writeAt := 0, filled := true }
-  else { r with data := d, writeAt := w }
+namespace HistBuf
+def new (cap : Nat) : HistBuf := { cap := cap, items := [] }
+def capacity (r : HistBuf) : Nat := r.cap
+def len (r : HistBuf) : Nat := r.items.length
+def write (r : HistBuf) (x : F32) : HistBuf :=
+  if r.items.length < r.cap then { r with items := r.items ++ [x] }
+  else { r with items := r.items.tail ++ [x] }
 /-- `oldest_ordered()` collected -/
-def oldestOrdered (r : Ring) : List F32 :=
-  if r.filled then r.data.drop r.writeAt ++ r.data.take r.writeAt else r.data.take r.writeAt
-end Ring
+def oldestOrdered (r : HistBuf) : List F32 := r.items
+end HistBuf
 
 structure Ribbon where
   boundary : F32
@@ -32,7 +32,7 @@ structure Ribbon where
   pressing : Bool
   justPressed : Bool
   justReleased : Bool
-  buff : Ring
+  buff : HistBuf
   ignore : Nat
   discard : Nat
   received : Nat
@@ -58,7 +58,7 @@ def new (cap : Nat) (sr softpot dropper pullup : F32) : Option Ribbon :=
     some { boundary := sub one (div dropper (add dropper softpot)),
            errorConst := div (add softpot dropper) pullup,
            current := zero, pressing := false, justPressed := false, justReleased := false,
-           buff := Ring.new cap, ignore := ign, discard := disc, received := 0, written := 0 }
+           buff := HistBuf.new cap, ignore := ign, discard := disc, received := 0, written := 0 }
   | _, _ => none
 
 def errorEstimate (r : Ribbon) (pos : F32) : F32 := mul (sub pos (mul pos pos)) r.errorConst
